@@ -34,7 +34,8 @@ WRITE = {"view.update": ("framework/population/manager.py", "view.update"),
 SUB = {"subview.get": None, "subview.update": None}   # handles returned by PopulationView.subview (no table entry)
 SERVICES = {**REG, **READ, **WRITE}
 # further kinds of handle for the same services (each must obey the same rule)
-VARIANTS = ["view.get@query", "view.get@all", "view.update@query", "view.update@all", "pipeline@rate", "pipeline@get_value",
+VARIANTS = ["pipeline@skip_post", "pipeline@rate_skip_post", "view.get@extra_query", "choice@weights", "get_draw@additional_key",
+            "view.get@query", "view.get@all", "view.update@query", "view.update@all", "pipeline@rate", "pipeline@get_value",
             "sample_from_distribution", "get_draw@crn", "filter_for_probability@crn", "filter_for_rate@crn", "choice@crn",
             "sample_from_distribution@crn", "table@multi", "table@categorical", "table@interpolated"]
 
@@ -167,6 +168,11 @@ def _run_matrix(case):
                 "pipeline": lambda: h["pipe"](idx),
                 "pipeline@rate": lambda: h["pipe_rate"](idx),
                 "pipeline@get_value": lambda: h["pipe_got"](idx),
+                "pipeline@skip_post": lambda: h["pipe"](idx, skip_post_processor=True),
+                "pipeline@rate_skip_post": lambda: h["pipe_rate"](idx, skip_post_processor=True),
+                "view.get@extra_query": lambda: h["view"].get(idx, query="a >= 0"),
+                "choice@weights": lambda: h["stream"].choice(idx, [1, 2], p=[0.25, 0.75], additional_key="k"),
+                "get_draw@additional_key": lambda: h["stream"].get_draw(idx, additional_key="k"),
                 "get_draw": lambda: h["stream"].get_draw(idx),
                 "filter_for_probability": lambda: h["stream"].filter_for_probability(idx, 0.5),
                 "filter_for_rate": lambda: h["stream"].filter_for_rate(idx, 0.5),
@@ -257,10 +263,10 @@ class C07(Prop):
     technique = "Lean 4 proof (decide over the constraint table regenerated from every add_constraint call site) + exhaustive dynamic service x state matrix on real simulations"
     n_quick = 16
     n_thorough = 120
-    rule = ("each case is a whole simulation in which probe components issue all 33 service calls (every kind of handle: plain / "
+    rule = ("each case is a whole simulation in which probe components issue all 38 service calls (every kind of handle: plain / "
             "queried / whole-table views, sub-views, pipelines from register_value_producer / register_rate_producer / get_value, "
             "ordinary and CRN-initialising streams incl. sample_from_distribution, scalar / multi-value / categorical / interpolated "
-            "lookup tables) in all 9 component-visible lifecycle states (297 cells, enumerated completely); cases vary who obtains the handles, when during setup, "
+            "lookup tables) in all 9 component-visible lifecycle states (342 cells, enumerated completely); cases vary who obtains the handles, when during setup, "
             "component order, CRN on/off, population size; non-trivial = the matrix has both admitted and refused cells")
 
     def boundary(self):
